@@ -521,7 +521,9 @@ def _splice_statement(m: ast.FunctionDef, call: ast.Call, helper: ast.FunctionDe
                 if isinstance(v, ast.Name) and isinstance(target, ast.Name) and v.id == target.id:
                     return []  # `return x` into `x = ...`: nothing to do
                 return [ast.copy_location(ast.Assign(targets=[copy.deepcopy(target)], value=v), node)]
-        search = _search_loop(new_body, mk) if not isinstance(st, ast.Expr) else None
+        # (a "find the first" helper - `for ..: if c: return v` / `return w` - could be spliced as for/else with `break`; it is not:
+        #  the caller then tests the found value, and a path-insensitive flow graph sees the infeasible path break -> "not found")
+        search = None
         if search is not None:
             out, always = search, True
         else:
